@@ -11,7 +11,7 @@ set_option linter.unusedSimpArgs false
 set_option linter.unusedVariables false
 
 namespace LolHtml.Model.Full
-open LolHtml LolHtml.Model LolHtml.Model.Handlers
+open LolHtml LolHtml.Model LolHtml.Model.Handlers LolHtml.EditModel LolHtml.Lemmas.Full
 
 theorem startMatchingInfos_removed {d d' : Dispatcher} (ms : List SelVM.MatchInfo) (h : startMatchingInfos d ms = .ok d') :
     d'.removedContent = d.removedContent := by
@@ -97,5 +97,58 @@ theorem fullCtl_emitDiscipline (cfg : Cfg) : EmitDiscipline (fullCtl cfg) where
   start := fun g n ns => startTag_emit g.1 n ns
   aux := fun g i => auxInfo_emit g.1 i
   end_ := fun g n h => endTag_emit g.1 n h
+
+/-! ### an end-tag token nobody asked for is passed through -/
+
+theorem sum_zero_all {l : List Nat} (h : l.sum = 0) : ∀ x ∈ l, x = 0 := by
+  induction l with
+  | nil => intro x hx; cases hx
+  | cons a as ih =>
+    simp only [List.sum_cons] at h
+    intro x hx
+    simp only [List.mem_cons] at hx
+    rcases hx with rfl | hx
+    · omega
+    · exact ih (by omega) x hx
+
+theorem findIdx_none_of_all {α : Type} {p : α → Bool} {l : List α} (h : ∀ x ∈ l, p x = false) : l.findIdx? p = none := by
+  induction l with
+  | nil => rfl
+  | cons a as ih =>
+    simp only [List.findIdx?_cons, h a (by simp)]
+    simp [ih (fun x hx => h x (by simp [hx]))]
+
+/-- with no active end-tag handler (and no pending fault) the real controller's `handle_token` on an
+end-tag token changes nothing and serialises the token unchanged -/
+theorem token_endTag_passthrough (cfg : Cfg) (s : St) (hw : DispWf s.disp) (hf : s.fault = none)
+    (hna : s.disp.endTag.hasActive = false) (name raw : Bytes) (src : Range) :
+    token cfg s (.endTag name raw src) = (s, { chunks := [raw] }) := by
+  have huc : s.disp.endTag.userCount = 0 := by
+    simp only [HandlerVec.hasActive, decide_eq_false_iff_not] at hna
+    omega
+  have hall : ∀ it ∈ s.disp.endTag.items, decide (0 < it.userCount) = false := by
+    intro it hit
+    have hsum : (s.disp.endTag.items.map (·.userCount)).sum = 0 := by
+      have := hw.endTag
+      unfold LolHtml.Lemmas.Full.VecWf at this
+      rw [← this]; exact huc
+    have := sum_zero_all hsum it.userCount (List.mem_map_of_mem hit)
+    simp [this]
+  unfold token
+  rw [hf]
+  dsimp only
+  unfold tokEndTag
+  unfold HandlerVec.doForEachActiveAndRemoveTail
+  rw [findIdx_none_of_all hall]
+  dsimp only
+  rw [if_pos huc]
+  dsimp only
+  simp only [runEndTagHandlers]
+  have hp : (s.payloads.filter fun p => !([] : List EndTagH).any fun h => h.ord == p.ord) = s.payloads := by
+    simp
+  cases s
+  simp only at hp ⊢
+  rw [hp]
+  simp [EndTag.intoBytes, Mutations.serialize, EndTag.serializeSelf]
 
 end LolHtml.Model.Full
